@@ -54,6 +54,14 @@ DPStep ==
         /\ ColumnCost(i) = m
         /\ best' = Append(best, m) /\ bp' = Append(bp, i) /\ ln' = Append(ln, ln[i + 1] + 1)
   /\ j' = j + 1 /\ UNCHANGED <<fs, pc, lws, pen, pos, lines>>
+\* Not part of Next: what the code does when smawk's answer for a column is *not* a minimum.  smawk needs a totally
+\* monotone matrix; a penalty width larger than the following fragment (or a third line width) breaks that, and
+\* the code then simply continues with the row smawk reported.  The trace specification (TraceOptimal.tla) takes
+\* this step only outside C03's precondition; inside it a non-minimal row is a rejected step.
+DPFollow(i) ==
+  /\ pc = "dp" /\ j <= n /\ i \in 0..(j - 1)
+  /\ best' = Append(best, ColumnCost(i)) /\ bp' = Append(bp, i) /\ ln' = Append(ln, ln[i + 1] + 1)
+  /\ j' = j + 1 /\ UNCHANGED <<fs, pc, lws, pen, pos, lines>>
 DPEnd == pc = "dp" /\ j > n /\ pc' = "back" /\ UNCHANGED <<fs, lws, pen, j, best, bp, ln, pos, lines>>
 \* loop { prev = minima[pos].0; lines.push(fragments[prev..pos]); pos = prev; if pos == 0 break }
 BackStep ==
